@@ -295,6 +295,8 @@ def forward_substitute(fn, candidates, extra_pure=()):
                     any(isinstance(x, ast.Call) and _callee(x) in ("iter", "reversed", "zip", "enumerate") for x in ast.walk(rhs))
                 if single_use_only and len(uses) > 1:
                     continue
+                if len(uses) > 1 and any(isinstance(x, ast.Call) for x in ast.walk(rhs)):
+                    continue  # never duplicate a call site (rules count them); the local stays and is resolved by def-use
                 free = {n.id for n in ast.walk(rhs) if isinstance(n, ast.Name) and isinstance(n.ctx, ast.Load)}
                 # no free name (or the object it denotes) may be written between the definition and the last use
                 ok = True
@@ -691,6 +693,9 @@ def _inline_in_function(fn, helpers, chelp, inlined):
             elif isinstance(st, ast.Return) and st.value is not None:
                 site = _call_of(st.value, helpers, chelp)
                 kind = "return"
+            elif isinstance(st, ast.Expr) and isinstance(st.value, ast.Yield) and st.value.value is not None:
+                site = _call_of(st.value.value, helpers, chelp)
+                kind = "yield"
             elif isinstance(st, ast.Expr):
                 site = _call_of(st.value, helpers, chelp)
                 kind = "expr"
@@ -723,6 +728,9 @@ def _inline_in_function(fn, helpers, chelp, inlined):
                         return [ast.copy_location(ast.Assign(targets=[copy.deepcopy(tgt)], value=v, lineno=r.lineno), r)]
                 elif kind == "return":
                     k = lambda r: [r]
+                elif kind == "yield":
+                    k = lambda r: [ast.copy_location(ast.Expr(value=ast.Yield(value=r.value if r.value is not None
+                                                                               else ast.Constant(value=None))), r)]
                 else:
                     k = lambda r: ([ast.copy_location(ast.Expr(value=r.value), r)] if r.value is not None and not is_pure(r.value) else [])
                 if kind == "return":
@@ -758,13 +766,43 @@ def _literal(e, depth=0):
     return False
 
 
+CONST_CALLS = {"re.compile", "bytes", "frozenset", "tuple", "str", "int", "len"}
+
+
+def _const_expr(e, module_consts, depth=0):
+    """an expression over literals and other module-level constants (slices, arithmetic, re.compile of those)"""
+    if depth > 6:
+        return False
+    if _literal(e):
+        return all(not isinstance(x, ast.Name) or x.id in module_consts for x in ast.walk(e))
+    if isinstance(e, ast.Name):
+        return e.id in module_consts
+    if isinstance(e, ast.Subscript):
+        sl = e.slice
+        parts = [sl.lower, sl.upper, sl.step] if isinstance(sl, ast.Slice) else [sl]
+        return _const_expr(e.value, module_consts, depth + 1) and all(x is None or _const_expr(x, module_consts, depth + 1) for x in parts)
+    if isinstance(e, ast.BinOp):
+        return _const_expr(e.left, module_consts, depth + 1) and _const_expr(e.right, module_consts, depth + 1)
+    if isinstance(e, ast.UnaryOp):
+        return _const_expr(e.operand, module_consts, depth + 1)
+    if isinstance(e, ast.Call) and _callee(e) in CONST_CALLS and not e.keywords:
+        return all(_const_expr(a, module_consts, depth + 1) for a in e.args)
+    return False
+
+
 def inline_constants(tree, shape):
     pinned = set(shape["names"])
     consts = {}
+    # module-level names bound exactly once to a constant / a literal (candidates to build constant expressions from)
+    once = {}
+    for st in tree.body:
+        if isinstance(st, ast.Assign) and len(st.targets) == 1 and isinstance(st.targets[0], ast.Name):
+            once.setdefault(st.targets[0].id, []).append(st)
+    module_consts = {n for n, sts in once.items() if len(sts) == 1 and (_literal(sts[0].value) or isinstance(sts[0].value, ast.Constant))}
     for st in tree.body:
         if isinstance(st, ast.Assign) and len(st.targets) == 1 and isinstance(st.targets[0], ast.Name):
             name = st.targets[0].id
-            if name in pinned or not _literal(st.value):
+            if name in pinned or not (_literal(st.value) or _const_expr(st.value, module_consts)):
                 continue
             consts[name] = st
     if not consts:
@@ -803,6 +841,21 @@ def inline_constants(tree, shape):
     return done
 
 
+# ----------------------------------------------------------------------- N6 compiled patterns
+class _Recompile(ast.NodeTransformer):
+    """re.compile(P).match(X, ...) == re.match(P, X, ...) (also search / fullmatch)"""
+
+    def visit_Call(self, node):
+        self.generic_visit(node)
+        f = node.func
+        if isinstance(f, ast.Attribute) and f.attr in ("match", "search", "fullmatch") and isinstance(f.value, ast.Call) \
+                and _callee(f.value) == "re.compile" and len(f.value.args) == 1 and not f.value.keywords:
+            new = ast.Call(func=ast.Attribute(value=ast.Name(id="re", ctx=ast.Load()), attr=f.attr, ctx=ast.Load()),
+                           args=[f.value.args[0]] + list(node.args), keywords=list(node.keywords))
+            return ast.copy_location(new, node)
+        return node
+
+
 # ----------------------------------------------------------------------- N4 conditional values
 def split_conditionals(fn):
     n = 0
@@ -831,16 +884,79 @@ def split_conditionals(fn):
     return n
 
 
+# ------------------------------------------------------------------------- N5 counted loops
+def _has_continue(stmts):
+    for st in stmts:
+        for n in _walk_stmt(st):
+            if isinstance(n, ast.Continue):
+                # a continue inside a nested loop belongs to that loop
+                p = n
+                return True
+    return False
+
+
+def _continue_at_level(stmts):
+    """does a `continue` in these statements target the enclosing loop (not a nested one)?"""
+    for st in stmts:
+        if isinstance(st, ast.Continue):
+            return True
+        if isinstance(st, (ast.For, ast.While, ast.AsyncFor, ast.FunctionDef, ast.AsyncFunctionDef, ast.ClassDef)):
+            continue
+        for field in ("body", "orelse", "finalbody"):
+            sub = getattr(st, field, None)
+            if isinstance(sub, list) and sub and isinstance(sub[0], ast.stmt) and _continue_at_level(sub):
+                return True
+        for h in getattr(st, "handlers", []) or []:
+            if _continue_at_level(h.body):
+                return True
+    return False
+
+
+def counted_loops(fn):
+    """`for i in itertools.count(k): if C: break; BODY`  ->  `i = k; while not C: BODY; i += 1` (no continue in BODY)"""
+    n = 0
+    for owner, field, lst in _stmt_lists(fn):
+        for i, st in enumerate(lst):
+            if not (isinstance(st, ast.For) and not st.orelse and isinstance(st.target, ast.Name) and isinstance(st.iter, ast.Call)
+                    and _callee(st.iter) in ("itertools.count", "count") and len(st.iter.args) <= 1 and not st.iter.keywords):
+                continue
+            start = st.iter.args[0] if st.iter.args else ast.Constant(value=0)
+            if not isinstance(start, ast.Constant) or not st.body:
+                continue
+            first = st.body[0]
+            if not (isinstance(first, ast.If) and not first.orelse and len(first.body) == 1 and isinstance(first.body[0], ast.Break)):
+                continue
+            rest = st.body[1:]
+            var = st.target.id
+            if _continue_at_level(rest) or any(var in _roots_written(x) for x in rest):
+                continue
+            test = first.test.operand if isinstance(first.test, ast.UnaryOp) and isinstance(first.test.op, ast.Not) \
+                else ast.UnaryOp(op=ast.Not(), operand=first.test)
+            init = ast.copy_location(ast.Assign(targets=[ast.Name(id=var, ctx=ast.Store())], value=start, lineno=st.lineno), st)
+            inc = ast.copy_location(ast.AugAssign(target=ast.Name(id=var, ctx=ast.Store()), op=ast.Add(), value=ast.Constant(value=1)), st)
+            loop = ast.copy_location(ast.While(test=test, body=rest + [inc], orelse=[]), st)
+            for x in (init, inc, loop):
+                ast.fix_missing_locations(x)
+            lst[i:i + 1] = [init, loop]
+            n += 1
+            break
+    return n
+
+
 # ---------------------------------------------------------------------------------------- driver
 def normalise(tree, modname, shape_all=None, keep=frozenset()):
     """normalise `tree` in place against the pinned shape of module `modname`; returns a log dict"""
     shape_all = shape_all if shape_all is not None else load_shape()
-    log = {"inlined": [], "substituted": {}, "constants": [], "conditionals": {}}
+    log = {"inlined": [], "substituted": {}, "constants": [], "conditionals": {}, "counted_loops": {}}
     if not shape_all or modname not in shape_all:
         return log
     shape = shape_all[modname]
     log["constants"] = inline_constants(tree, shape)
     log["inlined"] = sorted(set(inline_helpers(tree, shape, keep)))
+    if log["constants"] or log["inlined"]:
+        _Recompile().visit(tree)
+        ast.fix_missing_locations(tree)
+    log["counted_loops"] = {}
     for q, fn in functions_of(tree).items():
         pinned = shape["functions"].get(q)
         if pinned is None:
@@ -850,6 +966,12 @@ def normalise(tree, modname, shape_all=None, keep=frozenset()):
             k = forward_substitute(fn, new_locals)
             if k:
                 log["substituted"][q] = k
+        k = counted_loops(fn)
+        while k and counted_loops(fn):
+            pass
+        if k:
+            log["counted_loops"][q] = k
+            forward_substitute(fn, fn_locals(fn) - set(pinned["locals"]))
         if pinned.get("ifexp", 0) == 0:
             k = split_conditionals(fn)
             if k:
